@@ -166,7 +166,7 @@ pub fn run(ctx: &Ctx, model: &mut Model, rep: &mut Report) {
     }
     D16_OPEN.store(known::is_open(ctx, "C08", "D16"), Ordering::Relaxed);
     D31_OPEN.store(known::is_open(ctx, "C08", "D31"), Ordering::Relaxed);
-    let n = if ctx.thorough { 1200 } else { 80 };
+    let n = if ctx.thorough { 1200 } else { 240 };
     for i in 0..n {
         let mut r = Rng::for_case(ctx.seed ^ 0xC08, i as u64);
         let lib = c05::gen_library(&mut r, false);
